@@ -540,3 +540,10 @@ Fixpoint bloc_uniform (blocks : list (dtype * nat)) (hits : list bool) (vd : dty
       (forallb (fun b => b) h || negb (existsb (fun b => b) h) || dtype_eqb (resolve vd d) d) &&
       bloc_uniform rest (skipn w hits) vd
   end.
+
+(* ------------------------------------------------------------------ set-valued results (Index.union / intersection / difference):
+   every stored element is one of the supplied elements; for a union every supplied element is stored *)
+Definition S_subset (supplied stored : list cv) : bool :=
+  forallb (fun o => existsb (fun s => same s o) supplied) stored.
+Definition S_union (supplied stored : list cv) : bool :=
+  S_subset supplied stored && forallb (fun s => existsb (fun o => same s o) stored) supplied.
